@@ -48,11 +48,19 @@ func (c config) opts() []nodeenrollment.Option {
 func configs(thorough bool) []config {
 	var out []config
 	for _, p := range [][3]int{{8, 0, 0}, {8, -1, 1}, {16, -2, 0}} {
-		rs := []int{1, 2, 3}
+		span := p[0] + p[2] - p[1]
+		// short server intervals (with a node that follows its own bound) and
+		// long ones up to span-1 ("intervals shorter than the validity span")
+		rs := []int{1, 2, 3, span - 1}
 		if thorough {
-			rs = []int{1, 2, 3, 5}
+			rs = []int{1, 2, 3, 5, span / 2, span - 2, span - 1}
 		}
+		seen := map[int]bool{}
 		for _, r := range rs {
+			if seen[r] || r < 1 || r >= span {
+				continue
+			}
+			seen[r] = true
 			c := config{Life: p[0], NB: p[1], NA: p[2], R: r}
 			nb := -c.NB
 			// node interval: the largest grid value <= (span - R)/2 - |nb|
@@ -61,7 +69,7 @@ func configs(thorough bool) []config {
 				c.E--
 			}
 			if c.E < 1 {
-				continue
+				c.E = 0 // the node bound is below one grid unit: only the rotation clause is explored
 			}
 			out = append(out, c)
 		}
@@ -329,7 +337,7 @@ func (w *world) apply(s *state, label string, r *engine.Report) (*state, string,
 		}
 		ns.sinceRotate, ns.rotatedNow = 0, true
 	case "enroll":
-		if s.enrolledNow {
+		if s.enrolledNow || w.cfg.E == 0 {
 			return nil, "", ""
 		}
 		ns.gen++
@@ -466,10 +474,10 @@ func init() {
 	engine.Register(&engine.CheckDef{
 		ID:    "C09",
 		Level: "model_checking",
-		Rule: "BFS over {tick one grid unit (1h), rotate roots, node (re-)enrolls (first by enrollment, then by RotateNodeCredentials)} with a monitor that disables tick whenever the server's interval R or the node's interval E = floor((span-R)/2 - |not-before skew|) would be exceeded, for (lifetime, not-before, not-after) in {(8,0,0),(8,-1,1),(16,-2,0)} units x R in {1,2,3} (thorough: also 5), up to a horizon of 2 (thorough 5) spans; at every reachable grid state reached by time passing (thorough: at every state): a real Dial through the real listener under the virtual clock, and at every state the real ClientConfigs/ServerConfig validity filters now and at every end-point of a root or chain window +-1ns inside the next grid interval; every rotation must be a no-op or a promotion of a valid next; " +
+		Rule: "BFS over {tick one grid unit (1h), rotate roots, node (re-)enrolls (first by enrollment, then by RotateNodeCredentials)} with a monitor that disables tick whenever the server's interval R or the node's interval E = floor((span-R)/2 - |not-before skew|) would be exceeded, for (lifetime, not-before, not-after) in {(8,0,0),(8,-1,1),(16,-2,0)} units x R in {1,2,3,span-1} (thorough: also 5, span/2, span-2; where E < 1 only the rotation clause is explored), up to a horizon of 2 (thorough 5) spans; at every reachable grid state reached by time passing (thorough: at every state): a real Dial through the real listener under the virtual clock, and at every state the real ClientConfigs/ServerConfig validity filters now and at every end-point of a root or chain window +-1ns inside the next grid interval; every rotation must be a no-op or a promotion of a valid next; " +
 			"distinct_nontrivial = canonical states (validity instants relative to now, chain-to-root membership, cadence counters)",
 		Assumptions: []string{"the space is bounded by the horizon, not by a fixpoint (half-life shifts create new relative offsets)", "'randomized with jitter' and 'several orders of magnitude' are sampling and not claimed; the code is scale-free except for nanosecond truncation of /2 and the one-second granularity of certificate times, which is why the grid unit is one hour"},
-		Shards:      func(c *engine.Ctx) int { return 12 },
+		Shards:      func(c *engine.Ctx) int { return 16 },
 		Run:         run,
 		Replay:      replay,
 	})
